@@ -47,5 +47,5 @@ func Range(from, to Positionable) Pos {
 	l2 := to.Position()
 	util.Assert(l2.Idx >= l1.Idx, "expect right pos")
 	l1.IdxEnd = l2.IdxEnd
-	return l2
+	return l1
 }
